@@ -251,6 +251,14 @@ func (p *Program) toolBounded(opts checkOpts) (*Obligation, *boundedStats) {
 					words = append(words, w)
 				}
 				words = append([]string{"", ""}, append(words, "", "")...)
+			case run == 3:
+				for i := 0; i < 4096; i++ {
+					words = append(words, randWord())
+				}
+			case run == 4:
+				words = nil
+			case run == 5:
+				words = []string{randWord()}
 			default:
 				n := []int{0, 1, 2, 17, 2048, 4096, 100, 300}[rng.Intn(8)]
 				if opts.tier != "thorough" && n > 300 && run > 5 {
